@@ -254,6 +254,22 @@ func Guard(f func()) (p string) {
 	return ""
 }
 
+// GuardTimed runs f on its own goroutine and waits at most d for it: a recovered panic comes back as a string, a call
+// that has not returned after d as hung = true (the goroutine is abandoned: it keeps running until the process exits, so
+// the caller must not touch the object under test again).
+func GuardTimed(d time.Duration, f func()) (p string, hung bool) {
+	done := make(chan string, 1)
+	go func() { done <- Guard(f) }()
+	t := time.NewTimer(d)
+	defer t.Stop()
+	select {
+	case p = <-done:
+		return p, false
+	case <-t.C:
+		return "", true
+	}
+}
+
 // DDMin shrinks a failing op list: fails(ops) must be true for the input.
 func DDMin(n int, fails func(keep []int) bool) []int {
 	keep := make([]int, n)
